@@ -235,7 +235,7 @@ macro_rules! prevouts_all_harness {
             }
             // get(j): the j-th supplied prevout, or PrevoutIndex; any usize, never a panic
             let j: usize = kani::any();
-            kani::cover!(NPREV == 0 || j + 1 == NPREV);
+            kani::cover!(NPREV == 0 || j.wrapping_add(1) == NPREV);
             match p.get(j) {
                 Ok(o) => {
                     assert!(j < NPREV);
